@@ -50,6 +50,9 @@ pub enum Item {
     /// a sub-directory entry whose start cluster is not a cluster of the volume (damaged entry):
     /// opening and listing it may fail but must not crash
     WildDir { name: [u8; 11], cluster: u32 },
+    /// a volume-label entry whose 11 bytes spell a name from the pool: files and directories of
+    /// the same name may stand before or behind it
+    NamedLabel { name: [u8; 11] },
 }
 
 #[derive(Clone, Debug, PartialEq)]
@@ -341,9 +344,15 @@ pub fn build_items(items: &[Item], fat32: bool, lfn_cap: usize) -> (Vec<Slot>, V
                 slots.push(Slot::Raw(vec![r]));
                 this_junk = true;
             }
-            Item::Label => {
+            Item::Label | Item::NamedLabel { .. } => {
                 let mut e = [0u8; 32];
                 e[0..11].copy_from_slice(b"SOME LABEL ");
+                if let Item::NamedLabel { name } = it {
+                    e[0..11].copy_from_slice(&upper11(name));
+                    if e[0] == 0xE5 {
+                        e[0] = 0x05;
+                    }
+                }
                 e[11] = 0x08;
                 e[24..26].copy_from_slice(&0x2A21u16.to_le_bytes());
                 slots.push(Slot::Raw(vec![e]));
@@ -620,7 +629,9 @@ fn lookups(
     cands.dedup();
     for (name, kind) in cands.iter().take(40) {
         let RefName::Valid(n11) = names::ref_parse(name) else { continue };
-        let first_match = live.iter().find(|s| s.name() == n11);
+        // a volume label may share its 11 bytes with a file or directory: the name designates the
+        // file or directory, and the label only when nothing else carries it
+        let first_match = live.iter().find(|s| s.kind == SlotKind::Live && s.name() == n11).or_else(|| live.iter().find(|s| s.name() == n11));
         let r = catch_unwind(AssertUnwindSafe(|| api.find(d, name, Surf::Raw)));
         let r = match r {
             Ok(r) => r,
@@ -757,7 +768,7 @@ pub fn run_case(c: &DirCase, acc: &mut Acc, check_c06: bool, check_c17: bool, ve
                         continue;
                     }
                     let holder = if in_sub { sl.as_ref().unwrap() } else { &rl };
-                    let firstm = holder.slots.iter().find(|x| (x.kind == SlotKind::Live || x.kind == SlotKind::Label) && x.name() == s.name());
+                    let firstm = holder.slots.iter().find(|x| x.kind == SlotKind::Live && x.name() == s.name());
                     if !firstm.map(|x| std::ptr::eq(x, s)).unwrap_or(false) {
                         continue;
                     }
@@ -950,6 +961,7 @@ fn item_code(i: &Item) -> u8 {
         Item::Orphan { .. } => 31,
         Item::LfnSpelling { .. } => 32,
         Item::Label => 33,
+        Item::NamedLabel { .. } => 37,
         Item::End => 35,
         Item::WildDir { .. } => 36,
         Item::Junk(_) => 34,
@@ -966,6 +978,7 @@ fn item_name(i: &Item) -> String {
         Item::Orphan { .. } => "orphan-run".into(),
         Item::LfnSpelling { .. } => "lfn-fragment-spelling-a-short-name".into(),
         Item::Label => "label".into(),
+        Item::NamedLabel { .. } => "named-label".into(),
         Item::End => "end-marker".into(),
         Item::WildDir { cluster, .. } => format!("wild-dir:{:#x}", cluster),
         Item::Junk(_) => "junk".into(),
@@ -1015,6 +1028,7 @@ pub fn item_strategy(c17_bias: bool) -> BoxedStrategy<Item> {
         1 => units_strategy().prop_map(|units| Item::Orphan { units }),
         1 => prop_oneof![Just(0x4242u16), Just(0x4343u16)].prop_map(|tail| Item::LfnSpelling { tail }),
         1 => Just(Item::Label),
+        2 => gen::pool_name().prop_map(|name| Item::NamedLabel { name }),
         2 => any::<[u8; 32]>().prop_map(Item::Junk),
         1 => Just(Item::End),
         1 => (entry_name(), prop_oneof![Just(1u32), Just(0x0FFF_FFF0u32), Just(0xFFFF_FFF0u32), Just(0x0FFF_FFFFu32), Just(0xFFF7u32), Just(0xFFFFu32), Just(0x4000_0000u32), (300_000u32..400_000), any::<u32>()]).prop_map(|(name, cluster)| Item::WildDir { name, cluster }),
